@@ -13,7 +13,7 @@ open Rpft
 def NewNode (s : St) (given : Str) (pre : List Uid) (n : NodeM) (s' : St) : Prop :=
   ∃ k, Bump s s' k ∧ ((∀ d ∈ n.exitDests, d = Dest.none) ∧ n.dexitDest = Dest.none) ∧
     (∀ r, n.router = some (.sw r) → CaseCatsOk r) ∧
-    (given = [] → Grow s.next (s.next + k) pre n.ids)
+    (¬ Invented given → Grow s.next (s.next + k) pre n.fids) ∧ (given = [] → Invented n.uid)
 
 theorem wp_nodeUid (given : Str) (s : St) (Q : Uid → St → Prop) :
     wp (nodeUid given) s Q ↔
@@ -21,43 +21,56 @@ theorem wp_nodeUid (given : Str) (s : St) (Q : Uid → St → Prop) :
   unfold nodeUid
   wp_simp [wp_fresh', List.isEmpty_iff]
 
+/-- the node identifier: a fresh one, or the given one (which the counter does not account for
+when it does not look invented) -/
+theorem nodeUid_spec (given : Str) (s : St) :
+    wp (nodeUid given) s (fun u s' =>
+      ∃ j, Bump s s' j ∧ (¬ Invented given → Grow s.next (s.next + j) [] (uidPart u)) ∧
+        (given = [] → Invented u)) := by
+  rw [wp_nodeUid]
+  constructor
+  · intro _
+    exact ⟨1, rfl, fun _ => by rw [uidPart_tid]; grow_new [tid s.next], fun _ => invented_tid _⟩
+  · intro h
+    refine ⟨0, rfl, fun h' => ?_, fun h' => absurd h' h⟩
+    simp only [uidPart, h', if_false]; exact Grow.refl _ _ _
+
+theorem exitDests_withAct (n : NodeM) (act : Option (Uid × Str)) : (n.withAct act).exitDests = n.exitDests := by
+  cases act <;> rfl
+
 theorem basicNode_spec (r : Row) (act : Option (Uid × Str)) (s : St) :
     wp (basicNode r act) s (NewNode s r.nodeUuid (act.toList.map (·.1))) := by
   unfold basicNode
-  wp_simp [wp_nodeUid, wp_newBasic]
-  constructor
+  wp_simp [wp_newBasic]
+  refine wp_mono (nodeUid_spec _ _) ?_
+  intro u s1 ⟨j, hb, hu, hi⟩; subst hb
+  refine ⟨j + 2, by simp [Bump, Nat.add_assoc], ?_, ?_, ?_, ?_⟩
+  · cases act <;> simp [NodeM.withAct, NodeM.exitDests]
+  · cases act <;> simp [NodeM.withAct]
   · intro hg
-    refine ⟨3, rfl, ?_, ?_, ?_⟩
-    · cases act <;> simp [NodeM.withAct, NodeM.exitDests]
-    · cases act <;> simp [NodeM.withAct]
-    · intro _
-      cases act with
-      | none => simp only [NodeM.withAct, NodeM.ids, NodeM.tailIds]; grow_new [tid s.next, tid (s.next + 1 + 1)]
-      | some a => simp only [NodeM.withAct, NodeM.ids, NodeM.tailIds]; grow_new [tid s.next, tid (s.next + 1 + 1)]
-  · intro hg
-    refine ⟨2, rfl, ?_, ?_, ?_⟩
-    · cases act <;> simp [NodeM.withAct, NodeM.exitDests]
-    · cases act <;> simp [NodeM.withAct]
-    · intro h; exact absurd h hg
+    have h2 : Grow (s.next + j) (s.next + (j + 2)) (act.toList.map (·.1))
+        (act.toList.map (·.1) ++ [tid (s.next + j + 1)]) := by
+      grow_new [tid (s.next + j + 1)]
+    have := Grow.append (hu hg) h2 (by omega) (by omega)
+    cases act <;> simpa [NodeM.withAct, NodeM.fids, NodeM.innerIds, NodeM.tailIds] using this
+  · intro hg; cases act <;> exact hi hg
 
 theorem otherNode_spec (r : Row) (act : Option (Uid × Str)) (s : St) :
     wp (otherNode r act) s (NewNode s r.nodeUuid (act.toList.map (·.1))) := by
   unfold otherNode
-  wp_simp [wp_nodeUid, wp_fresh']
-  constructor
+  wp_simp [wp_fresh']
+  refine wp_mono (nodeUid_spec _ _) ?_
+  intro u s1 ⟨j, hb, hu, hi⟩; subst hb
+  refine ⟨j + 1, by simp [Bump, Nat.add_assoc], ?_, ?_, ?_, ?_⟩
+  · cases act <;> simp [NodeM.withAct, NodeM.exitDests]
+  · cases act <;> simp [NodeM.withAct]
   · intro hg
-    refine ⟨2, rfl, ?_, ?_, ?_⟩
-    · cases act <;> simp [NodeM.withAct, NodeM.exitDests]
-    · cases act <;> simp [NodeM.withAct]
-    · intro _
-      cases act with
-      | none => simp only [NodeM.withAct, NodeM.ids, NodeM.tailIds]; grow_new [tid s.next, tid (s.next + 1)]
-      | some a => simp only [NodeM.withAct, NodeM.ids, NodeM.tailIds]; grow_new [tid s.next, tid (s.next + 1)]
-  · intro hg
-    refine ⟨1, rfl, ?_, ?_, ?_⟩
-    · cases act <;> simp [NodeM.withAct, NodeM.exitDests]
-    · cases act <;> simp [NodeM.withAct]
-    · intro h; exact absurd h hg
+    have h2 : Grow (s.next + j) (s.next + (j + 1)) (act.toList.map (·.1))
+        (act.toList.map (·.1) ++ [tid (s.next + j)]) := by
+      grow_new [tid (s.next + j)]
+    have := Grow.append (hu hg) h2 (by omega) (by omega)
+    cases act <;> simpa [NodeM.withAct, NodeM.fids, NodeM.innerIds, NodeM.tailIds] using this
+  · intro hg; cases act <;> exact hi hg
 
 /-! ### router nodes -/
 
@@ -98,34 +111,32 @@ theorem rename_dflt (r : SwitchR) (nm : Str) :
     have := h k hk
     simpa [SwitchR.allCats] using this
 
-theorem ids_swNode (u : Uid) (kind : NodeKind) (acts : List (Uid × Str)) (sw : SwitchR) (e : Uid) (d : Dest) :
-    (NodeM.ids { uid := u, kind := kind, actions := acts, router := some (.sw sw), dexitUid := e, dexitDest := d })
-      = u :: (acts.map (·.1) ++ sw.ids) := rfl
+theorem fids_swNode (u : Uid) (kind : NodeKind) (acts : List (Uid × Str)) (sw : SwitchR) (e : Uid) (d : Dest) :
+    (NodeM.fids { uid := u, kind := kind, actions := acts, router := some (.sw sw), dexitUid := e, dexitDest := d })
+      = uidPart u ++ (acts.map (·.1) ++ sw.ids) := rfl
 
 /-- assembling a switch-router node from freshly allocated parts -/
 theorem newNode_sw {s : St} {given : Str} {pre : List Uid} {u e : Uid} {kind : NodeKind}
     {acts : List (Uid × Str)} {sw : SwitchR} {k : Nat}
     (hd : SwD (· = Dest.none) sw) (hc : CaseCatsOk sw)
-    (hg : given = [] → Grow s.next (s.next + k) [] (u :: (acts.map (·.1) ++ sw.ids))) :
+    (hg : ¬ Invented given → Grow s.next (s.next + k) [] (uidPart u ++ (acts.map (·.1) ++ sw.ids)))
+    (hi : given = [] → Invented u) :
     NewNode s given pre
       ({ uid := u, kind := kind, actions := acts, router := some (.sw sw), dexitUid := e,
          dexitDest := .none } : NodeM)
       { s with next := s.next + k } := by
-  refine ⟨k, rfl, ⟨?_, rfl⟩, ?_, ?_⟩
+  refine ⟨k, rfl, ⟨?_, rfl⟩, ?_, ?_, hi⟩
   · intro d hdd
     simp only [NodeM.exitDests, List.mem_map] at hdd
     obtain ⟨c, hc1, rfl⟩ := hdd
     exact hd c hc1
   · intro r hr; simp at hr; subst hr; exact hc
-  · intro h; rw [ids_swNode]; exact (hg h).weaken pre
+  · intro h; rw [fids_swNode]; exact (hg h).weaken pre
 
-theorem nodeUid_spec (given : Str) (s : St) :
-    wp (nodeUid given) s (fun u s' =>
-      ∃ j, Bump s s' j ∧ (given = [] → Grow s.next (s.next + j) [] [u])) := by
-  rw [wp_nodeUid]
-  constructor
-  · intro _; exact ⟨1, rfl, fun _ => by grow_new [tid s.next]⟩
-  · intro h; exact ⟨0, rfl, fun h' => absurd h' h⟩
+theorem grow_part_append {b b1 b2 : Nat} {p l : List Uid} (h1 : Grow b b1 [] p)
+    (h2 : Grow b1 b2 [] l) (hb : b ≤ b1) (hb' : b1 ≤ b2) : Grow b b2 [] (p ++ l) := by
+  have := Grow.append h1 h2 hb hb'
+  simpa using this
 
 theorem grow_cons_append {b b1 b2 : Nat} {u : Uid} {l : List Uid} (h1 : Grow b b1 [] [u])
     (h2 : Grow b1 b2 [] l) (hb : b ≤ b1) (hb' : b1 ≤ b2) : Grow b b2 [] (u :: l) := by
@@ -137,14 +148,14 @@ theorem splitGroupNode_spec (r : Row) (pre : List Uid) (s : St) :
   unfold splitGroupNode
   wp_simp [wp_newRouterNode]
   refine wp_mono (nodeUid_spec _ _) ?_
-  intro u s1 ⟨j, hb, hu⟩; subst hb
+  intro u s1 ⟨j, hb, hu, hi⟩; subst hb
   refine wp_mono (newSwitch_spec _ _ _ _) ?_
   intro sw s2 ⟨k, hb, hgr, hd, hc⟩; subst hb
   dsimp only at hgr ⊢
   have := newNode_sw (s := s) (given := r.nodeUuid) (pre := pre) (u := u) (e := tid (s.next + j + k))
     (kind := .switch) (acts := []) (k := j + k + 1) hd (caseCatsOk_of_cases_nil hc) (by
       intro hg
-      exact (grow_cons_append (hu hg) hgr (by omega) (by omega)).mono (by omega) (by omega))
+      exact (grow_part_append (hu hg) hgr (by omega) (by omega)).mono (by omega) (by omega)) hi
   simpa [Nat.add_assoc] using this
 
 theorem splitValueNode_spec (r : Row) (pre : List Uid) (s : St) :
@@ -152,7 +163,7 @@ theorem splitValueNode_spec (r : Row) (pre : List Uid) (s : St) :
   unfold splitValueNode
   wp_simp [wp_newRouterNode]
   refine wp_mono (nodeUid_spec _ _) ?_
-  intro u s1 ⟨j, hb, hu⟩; subst hb
+  intro u s1 ⟨j, hb, hu, hi⟩; subst hb
   refine ⟨fun _ => trivial, fun _ => ?_⟩
   refine wp_mono (newSwitch_spec _ _ _ _) ?_
   intro sw s2 ⟨k, hb, hgr, hd, hc⟩; subst hb
@@ -160,7 +171,7 @@ theorem splitValueNode_spec (r : Row) (pre : List Uid) (s : St) :
   have := newNode_sw (s := s) (given := r.nodeUuid) (pre := pre) (u := u) (e := tid (s.next + j + k))
     (kind := .switch) (acts := []) (k := j + k + 1) hd (caseCatsOk_of_cases_nil hc) (by
       intro hg
-      exact (grow_cons_append (hu hg) hgr (by omega) (by omega)).mono (by omega) (by omega))
+      exact (grow_part_append (hu hg) hgr (by omega) (by omega)).mono (by omega) (by omega)) hi
   simpa [Nat.add_assoc] using this
 
 theorem waitNode_spec (r : Row) (pre : List Uid) (s : St) :
@@ -168,7 +179,7 @@ theorem waitNode_spec (r : Row) (pre : List Uid) (s : St) :
   unfold waitNode
   wp_simp [wp_newRouterNode]
   refine wp_mono (nodeUid_spec _ _) ?_
-  intro u s1 ⟨j, hb, hu⟩; subst hb
+  intro u s1 ⟨j, hb, hu, hi⟩; subst hb
   have tail : ∀ w : Nat, wp (do
       let sw ← newSwitch "@input.text".toList (some r.saveName) (some w)
       newRouterNode u .switch (.sw sw)) { s with next := s.next + j } (NewNode s r.nodeUuid pre) := by
@@ -180,7 +191,7 @@ theorem waitNode_spec (r : Row) (pre : List Uid) (s : St) :
     have := newNode_sw (s := s) (given := r.nodeUuid) (pre := pre) (u := u) (e := tid (s.next + j + k))
       (kind := .switch) (acts := []) (k := j + k + 1) hd (caseCatsOk_of_cases_nil hc) (by
         intro hg
-        exact (grow_cons_append (hu hg) hgr (by omega) (by omega)).mono (by omega) (by omega))
+        exact (grow_part_append (hu hg) hgr (by omega) (by omega)).mono (by omega) (by omega)) hi
     simpa [Nat.add_assoc] using this
   simp only [wp_bind, wp_newRouterNode] at tail
   constructor
@@ -197,20 +208,20 @@ theorem splitRandomNode_spec (r : Row) (pre : List Uid) (s : St) :
   unfold splitRandomNode
   wp_simp [wp_newRouterNode]
   refine wp_mono (nodeUid_spec _ _) ?_
-  intro u s1 ⟨j, hb, hu⟩; subst hb
-  refine ⟨j + 1, by simp [Bump, Nat.add_assoc], ?_, ?_, ?_⟩
+  intro u s1 ⟨j, hb, hu, hi⟩; subst hb
+  refine ⟨j + 1, by simp [Bump, Nat.add_assoc], ?_, ?_, ?_, hi⟩
   · simp [NodeM.exitDests]
   · intro r hr; simp at hr
   · intro hg
-    have : Grow s.next (s.next + (j + 1)) [] [u] := (hu hg).mono (by omega) (by omega)
-    exact Grow.weaken (by simpa [NodeM.ids, NodeM.tailIds, RandomR.ids] using this) pre
+    have : Grow s.next (s.next + (j + 1)) [] (uidPart u) := (hu hg).mono (by omega) (by omega)
+    exact Grow.weaken (by simpa [NodeM.fids, NodeM.innerIds, NodeM.tailIds, RandomR.ids] using this) pre
 
 theorem enterNode_spec (r : Row) (pre : List Uid) (s : St) :
     wp (enterNode r) s (NewNode s r.nodeUuid pre) := by
   unfold enterNode
   wp_simp [wp_newRouterNode, wp_fresh']
   refine wp_mono (nodeUid_spec _ _) ?_
-  intro u s1 ⟨j, hb, hu⟩; subst hb
+  intro u s1 ⟨j, hb, hu, hi⟩; subst hb
   refine wp_mono (newSwitch_spec _ _ _ _) ?_
   intro sw s2 ⟨k1, hb, hg1, hd1, hc1⟩; subst hb
   obtain ⟨ri, rd, rc, rk⟩ := rename_dflt sw "Expired".toList
@@ -231,8 +242,8 @@ theorem enterNode_spec (r : Row) (pre : List Uid) (s : St) :
       intro hg
       have h1 : Grow (s.next + j) (s.next + j + 1) [] [tid (s.next + j)] := by grow_new [tid (s.next + j)]
       have h2 := grow_cons_append h1 hsw (by omega) (by omega)
-      have h3 := grow_cons_append (hu hg) h2 (by omega) (by omega)
-      exact h3.mono (by omega) (by omega))
+      have h3 := grow_part_append (hu hg) h2 (by omega) (by omega)
+      exact h3.mono (by omega) (by omega)) hi
   simpa [Nat.add_assoc] using this
 
 theorem hookNode_spec (r : Row) (pre : List Uid) (s : St) :
@@ -240,7 +251,7 @@ theorem hookNode_spec (r : Row) (pre : List Uid) (s : St) :
   unfold hookNode
   wp_simp
   refine wp_mono (nodeUid_spec _ _) ?_
-  intro u s1 ⟨j, hb, hu⟩; subst hb
+  intro u s1 ⟨j, hb, hu, hi⟩; subst hb
   split
   · wp_simp
   · rename_i key hkey
@@ -266,11 +277,11 @@ theorem hookNode_spec (r : Row) (pre : List Uid) (s : St) :
         have h1 : Grow (s.next + j + k1 + k2) (s.next + j + k1 + k2 + 2) [] [tid (s.next + j + k1 + k2 + 1)] := by
           grow_new [tid (s.next + j + k1 + k2 + 1)]
         have h2 := Grow.append hsw h1 (by omega) (by omega)
-        have h3 := grow_cons_append (hu hg) h2 (by omega) (by omega)
+        have h3 := grow_part_append (hu hg) h2 (by omega) (by omega)
         refine (h3.mono (by omega) (by omega)).perm_right ?_
         simp only [List.map_cons, List.map_nil]
-        refine List.Perm.cons _ ?_
-        exact List.perm_append_comm (l₁ := sw2.ids) (l₂ := [tid (s.next + j + k1 + k2 + 1)]))
+        refine List.Perm.append_left _ ?_
+        exact List.perm_append_comm (l₁ := sw2.ids) (l₂ := [tid (s.next + j + k1 + k2 + 1)])) hi
     simpa [Nat.add_assoc] using this
 
 theorem rowNode_spec (r : Row) (act : Option (Uid × Str)) (s : St) :
